@@ -191,6 +191,16 @@ def step (last : Bytes) (toks : List String) : Bytes × String :=
       let rs := l.snap.recs.foldl (fun acc r => acc ++ " " ++ hex r) ""
       (last, s!"ok {Proto.boolStr l.snap.compressed} {l.snap.height} {hex l.snap.hash} {l.totalTxs} {l.dataSize} {l.snap.recs.length}{rs}")
     | _, _, _ => bad
+  | ["asks", f] =>
+    -- what one pass of the loader over this file asks for: the count the maps are pre-sized for, then the Memory_Malloc arguments
+    let file := if f == "nil" then some none else (unhex f).map some
+    match file with
+    | some file =>
+      let a := memAsk Gen.UtxoLoaderFacts.retryShape file
+      let m := match a.mapsFor with | some c => toString c | none => "-"
+      let rs := a.mallocs.foldl (fun acc r => acc ++ " " ++ toString r) ""
+      (last, s!"ok {m} {a.mallocs.length}{rs}")
+    | none => bad
   | ["rdvlen", d, caps] => match unhex d, parseCaps caps with
     | some d, some caps => match readVLenRd Gen.UtxoSharedFacts.readShape ⟨d, caps⟩ with
       | some (v, r) => (last, s!"ok {v} {r.data.length}")
